@@ -13,6 +13,11 @@ def _stored_plus_one(v):
     v = v.strip()
     if v.startswith("cast<IntToInt>(") and v.endswith(")"):
         v = v[len("cast<IntToInt>("):-1]
+    # `stored.map_or(1, |n| n + 1)`: the absent case spelt as the constant 0 + 1
+    import re
+    m = re.fullmatch(r"map_or\((poll\(get_int\(.*@Ready\.0), 1, \|\$1\| (.*)\)", v)
+    if m and terms.plus_one_base(m.group(2)) == "$1":
+        v = "saturating_add(unwrap_or(%s, 0), 1)" % m.group(1)
     x = terms.plus_one_base(v)
     return x is not None and x.startswith("unwrap_or(poll(get_int(") and x.endswith("@Ready.0, 0)") and "'consecutive_failed_install_attempts'" in x and x.count("get_int(") == 1
 
@@ -208,9 +213,12 @@ def run(F, R):
                         none_e.append((sb, tgt))
         eqt = set(terms.render(fv, fv.trace_op(fv.blocks[a]["t"]["o"]), W, {}) for a, b in eq_true)
         R.check("C18-R1", "compare-with-plan-id", len(eqt) == 1 and all("install_plan_id" in t and "param1.1" in t for t in eqt), str(sorted(eqt))[:160], "the stored id is not compared with the plan id argument: %s" % sorted(eqt))
-        R.check("C18-R1", "write-only-for-new-plan", eq_false and none_e and fv.dominated_by_edge(wbi, eq_false + none_e), "install_plan_id written only when absent or different", "install_plan_id / first-seen time are rewritten for the same plan", lib.loc(fv, wbi))
+        # `stored == Some(id)` compared as Options: its false edge already covers "absent"
+        eqf_t = set(terms.render(fv, fv.trace_op(fv.blocks[a]["t"]["o"]), W, {}) for a, b in eq_false)
+        opt_cmp = bool(eqf_t) and all("Some{" in t_ for t_ in eqf_t)
+        R.check("C18-R1", "write-only-for-new-plan", eq_false and (none_e or opt_cmp) and fv.dominated_by_edge(wbi, eq_false + none_e), "install_plan_id written only when absent or different", "install_plan_id / first-seen time are rewritten for the same plan", lib.loc(fv, wbi))
         setfirst = [k for k in bykey.get(K["first"], []) if k["name"] == "set_time" and k["bv"] is fv]
-        R.check("C18-R1", "first-seen-with-id", len(setfirst) == 1 and setfirst[0]["bi"] in fv.reach_from([wbi]) and fv.dominated_by_edge(setfirst[0]["bi"], eq_false + none_e), "first-seen time written together with the id", "first-seen time is not written together with the plan id")
+        R.check("C18-R1", "first-seen-with-id", len(setfirst) == 1 and setfirst[0]["bi"] in fv.reach_from([wbi]) and fv.dominated_by_edge(setfirst[0]["bi"], eq_false + none_e) and (none_e or opt_cmp), "first-seen time written together with the id", "first-seen time is not written together with the plan id")
         if setfirst:
             v = setfirst[0]["value"]
             R.check("C18-R1", "first-seen-value", v == "param1.2", "first-seen time <- the `now` argument", "first-seen time <- %s" % v)
